@@ -56,7 +56,7 @@ SITES = {
     "mp_lazy": "MarkovProduct.eager",
     "mp_fresh": "MarkovProduct.eager_subs",
     "mp_swap": "MarkovProduct.eager_subs",
-    "mp_swap_eager": "MarkovProduct.eager_subs",
+    "mp_swap_eager": "Subs(lazy MarkovProduct) under eager",
     "mp_reduce_curr": "MarkovProduct.reduce",
     "mp_reduce_prev": "MarkovProduct.reduce",
     "mp_time_collide": "MarkovProduct._alpha_convert",
@@ -235,7 +235,6 @@ def seq_run(cfg, entry=None):
         return MarkovProduct(sum_op, prod_op, trans, time, step)
     with lazy:
         mp = MarkovProduct(sum_op, prod_op, trans, time, step)
-    assert type(mp).__name__ == "MarkovProduct" and TIME not in mp.inputs
     if entry == "mp_lazy":
         return reinterpret(mp)
     swap = dict(step)
@@ -400,6 +399,13 @@ def run_case(case, seed):
 # --- SNIPPET-END
 
 
+def worker_init():
+    import warnings
+
+    warnings.filterwarnings("ignore", category=RuntimeWarning)  # numpy overflow/-inf notes on planted zeros
+    np.seterr(all="ignore")
+
+
 def snippet(case, seed):
     src = open(__file__.replace(".pyc", ".py")).read()
     region = src.split("# --- SNIPPET-BEGIN", 1)[1].split("# --- SNIPPET-END", 1)[0].split("\n", 1)[1]
@@ -424,24 +430,34 @@ def _tuples(values, n):
 
 def bounds(tier):
     thorough = tier == "thorough"
+    cfgs = seq_configs(tier)
     return {
         "durations": [1, 12 if thorough else 8],
         "state_pairs": [1, 3 if thorough else 2],
         "state_sizes": [1, 2, 3],
+        "state_size_tuples": len({tuple(c[0]) for c in cfgs}),
         "batch_inputs": dict(BATCH_SIZES),
-        "transition_depends_on": "every subset of {time, a, b}",
-        "free_real_parameter": [0, 1],
-        "data_kinds": {"g": "generic", "z": "generic with planted semiring zeros (only without real parameter)"},
-        "layouts": [0, 1] if thorough else [0],
+        "transition_depends_on": "every subset of {time, a, b} (8 subsets)",
+        "free_real_parameter": "0 for every size tuple; 1 for <= %d state pair(s)" % (2 if thorough else 1),
+        "data_kinds": {"g": "generic, every size tuple",
+                       "z": "generic with planted semiring zeros incl. a whole zero column, <= %d state pair(s), "
+                            "no real parameter" % (2 if thorough else 1)},
+        "layouts": {"0": "batch.., time, prev/curr interleaved (all)",
+                    "1": "curr.., prev.., time, batch reversed (thorough, <= 2 pairs, generic data)"},
+        "seq_config_count": len(cfgs),
         "semirings": list(markov.SEMIRINGS),
-        "seq_entries": ["seq", "naive", "mixed:1..duration+1", "mp_eager", "mp_lazy", "mp_fresh", "mp_swap",
-                        "mp_swap_eager", "mp_reduce_curr", "mp_reduce_prev", "mp_time_collide (if a batch input)"],
-        "sb_lag_sets": "every non-empty subset of {1,2,3} on one variable; each lag on its own variable; "
-                       "with/without an unlagged local variable",
+        "seq_entries": ["seq", "naive", "mixed:k for every k in 1..duration+1", "mp_eager", "mp_lazy", "mp_fresh",
+                        "mp_swap", "mp_swap_eager", "mp_reduce_curr", "mp_reduce_prev",
+                        "mp_time_collide (when the transition has a batch input)"],
+        "sb_variable_sets": sb_varsets(tier),
+        "sb_lag_sets": LAGSETS,
         "sb_durations": [1, 10 if thorough else 8],
-        "sb_num_periods": [1, 3],
-        "sb_globals": [0, 1, 2] if thorough else [0, 1],
-        "sb_state_sizes": [2, 3] if thorough else [2],
+        "sb_entries": ["naive", "num_periods 1", "num_periods 2", "num_periods 3"],
+        "sb_globals": [[], ["g:2"]] + ([["g:2", "h:3"]] if thorough else []),
+        "sb_data_kinds": ["g", "z"],
+        "sb_layouts": [0, 1] if thorough else [0],
+        "not_enumerated": "each of the lags 1,2,3 on its own variable (funsor's block tensor has 2^24 cells: "
+                          "MemoryError / 40 s per case in probing)",
     }
 
 
@@ -549,20 +565,19 @@ def check(case, seed):
         return core.decline(key, "%s%s:%s" % (ek, tag, kind.split(":", 1)[1]), transitions=0)
     # violation: localise to the innermost function that already disagrees with the fold on this configuration
     site = SITES[ek]
-    feats = {"entry": ek, "semiring": case[1], "duration": T, "what": kind.split(":", 1)[1], "data": case[-3]}
+    # features are kept small (known-finding predicates); everything else is in the message and the case
+    feats = {"entry": ek, "what": kind.split(":", 1)[1]}
     if case[0] == "seq":
-        feats.update(dep_time=bool(case[5]), real=bool(case[6]), npairs=len(case[3]), state_sizes=case[3])
+        feats.update(dep_time=bool(case[5]), real=bool(case[6]))
         if ek not in ("seq", "naive"):
             cfg = seq_setup(case, seed)
-            inner = [e for e in (["seq"] if ek != "mixed" else ["seq", "naive"])]
-            for e in inner:
+            for e in ["seq"] if ek != "mixed" else ["seq", "naive"]:
                 k2, _, _ = seq_attempt(cfg, seed, e)
                 if k2.startswith("violation"):
                     site = SITES[e]
                     break
     else:
-        feats.update(lags=sorted({lag for v in case[3] for lag in v[2]}), nvars=len(case[3]), globals=len(case[4]),
-                     naive=info.get("naive"))
+        feats.update(lags=sorted({lag for v in case[3] for lag in v[2]}), naive=info.get("naive"))
     return core.violation(
         key, site, "%s: %s\n  case: %s" % (kind, msg, describe(case)), case, feats, snippet(case, seed), transitions=T
     )
